@@ -76,6 +76,10 @@ func init() {
 						}
 						cs = append(cs, fw.Case{ID: fmt.Sprintf("%s/borrow%d", n, i), Kind: "borrow", P: map[string]any{"inst": n, "i": i, "k": 1}})
 						cs = append(cs, fw.Case{ID: fmt.Sprintf("%s/samev/limb%d", n, i), Kind: "samev", P: map[string]any{"inst": n, "i": i, "k": 1}})
+						cs = append(cs, fw.Case{ID: fmt.Sprintf("%s/lowword/limb%d", n, i), Kind: "lowword", P: map[string]any{"inst": n, "i": i, "k": 1}})
+						if i < 8 {
+							cs = append(cs, fw.Case{ID: fmt.Sprintf("%s/pairshift/%d", n, i), Kind: "pairshift", P: map[string]any{"inst": n, "i": i, "k": 1}})
+						}
 						cs = append(cs, fw.Case{ID: fmt.Sprintf("%s/trunc128/limb%d", n, i), Kind: "trunc", P: map[string]any{"inst": n, "i": i, "k": 1}})
 					}
 					cs = append(cs, fw.Case{ID: n + "/all+p", Kind: "allp", P: map[string]any{"inst": n, "k": 1}})
@@ -147,6 +151,29 @@ func init() {
 					for j := range V {
 						V[j] = new(big.Int).Mod(V[j], pow2(128))
 					}
+					vSet = true
+				case "lowword":
+					// limb_i + p with the public values packing only the LOW 32-bit word of every limb
+					// (what a truncating packing would compute)
+					i := c.Int("i")
+					limbs[i] = new(big.Int).Add(truth[i], bigP)
+					low := make([]*big.Int, 16)
+					for j := range low {
+						low[j] = new(big.Int).And(limbs[j], big.NewInt(0xFFFFFFFF))
+					}
+					V = packLimbs(low)
+					vSet = true
+				case "pairshift":
+					// two public values of the same 256-bit hash moved together by (a, -a*2^128 mod r):
+					// V[2j]*2^128 + V[2j+1] is unchanged
+					V = packLimbs(truth)
+					j := (c.Int("i") % 2) * 2
+					a := big.NewInt(int64(1 + r.Intn(1000)))
+					if c.Int("i") >= 4 {
+						a = randBig(r, pow2(120))
+					}
+					V[j] = new(big.Int).Add(V[j], a)
+					V[j+1] = new(big.Int).Mod(new(big.Int).Sub(V[j+1], new(big.Int).Lsh(a, 128)), bigR)
 					vSet = true
 				case "samev":
 					// a second limb set for the SAME public values: limb_i (and sometimes a second
@@ -369,6 +396,9 @@ func init() {
 						for _, what := range []string{"otherkey", "otherdigest", "othercap", "randomkey", "unselected_all"} {
 							cs = append(cs, fw.Case{ID: fmt.Sprintf("%s/%s/%s", n, w, what), Kind: what, P: map[string]any{"inst": n, "wrapper": w, "other": other}})
 						}
+						for k := 0; k < 4; k++ {
+							cs = append(cs, fw.Case{ID: fmt.Sprintf("%s/%s/swapcap/%d", n, w, k), Kind: "swapcap", P: map[string]any{"inst": n, "wrapper": w, "other": other}})
+						}
 					}
 				}
 				return cs
@@ -432,6 +462,23 @@ func init() {
 							o.Inc("unselected_cap_entries_tried")
 						}
 					}
+				case "swapcap":
+					// the genuine entries in exchanged positions (both selected by queries)
+					var sel []int
+					for e := 0; e < 16; e++ {
+						if selected[e] {
+							sel = append(sel, e)
+						}
+					}
+					x := sel[r.Intn(len(sel))]
+					y := sel[r.Intn(len(sel))]
+					for y == x {
+						y = sel[r.Intn(len(sel))]
+					}
+					vx, vy := ls[x].Big(), ls[y].Big()
+					ls[x].Set(vy)
+					ls[y].Set(vx)
+					desc = fmt.Sprintf("cap entries %d and %d exchanged (both selected by queries)", x, y)
 				case "otherkey":
 					a.VD = *circ.DeepCopy(&getInst(c.Str("other")).VD)
 				case "otherdigest":
